@@ -8,13 +8,14 @@ LEAN_TARGETS = ["TornadoModel.C19.Props"]
 _T = "TornadoModel.C19."
 THEOREMS = [_T + n for n in [
     "lex_src", "lex_line_invariant", "scan_total", "text_verbatim", "text_only_output", "escape_sequences",
-    "triple_brace_innermost", "parse_error_line", "unterminated_error_line",
+    "triple_brace_innermost", "parse_error_line", "parse_error_located", "unterminated_error_line",
     "filter_all_identity", "filter_oneline_idempotent", "filter_idempotent",
     "filter_single_idempotent", "filter_whitespace_idempotent",
     "gen_balanced", "gen_stack_balanced", "control_body_nonempty",
     "interp_matches_gen_structure_partial", "interp_matches_gen_outcome_partial",
     "parse_flat_roundtrip", "bytes_literal_roundtrip",
     "cache_keyed_by_resolved_name", "load_history_independent", "resolve_toplevel",
+    "break_inside_loop_refuted", "break_inside_loop_partial",
 ]]
 TRUSTED = [
     "CPython executes the generated source as Python defines (exec of Template.code); the generated source itself is "
@@ -44,12 +45,14 @@ RULE = ("grammar-directed templates (nesting <= 4, DictLoader with extends chain
         "directory-structured names with clashing base names / decoy files stored under the unresolved spelling of a "
         "relative reference, 0-6 earlier loads on the same loader instance in several orders, all whitespace modes, "
         "literal text with quotes/backslashes/braces/!/non-ASCII/<pre>/Unicode spaces), a fault-injection stream (one "
-        "malformed directive at a known place), a mutation stream, a brace-soup stream and a primitives stream; "
+        "malformed directive at a known place), a systematic stream of break/continue inside blocks (one file, parent block inside / "
+        "outside a loop / inside apply, overridden) and inside finally, a mutation stream, a brace-soup stream and a primitives stream; "
         "non-trivial = at least one directive nested in another or a loader with >= 2 files, or a ParseError; "
         "distinct by canonical JSON of the case")
 EXHAUSTIVE = {"quick": False, "thorough": False}
 CLAUSE_CAVEATS = [
-    'parse_error_line only bounds the reported line to a line of the template; that it is the line of the offending directive is proved for unterminated constructs (unterminated_error_line) and decided by the fault-injection tie for the other 20 error kinds',
+    'parse_error_located pins every ParseError to the first directive the builder rejects (all 21 kinds); the line named is reader.line just BEHIND that directive (its last line when it spans several lines - the behaviour of the code, the oracle accepts the span first..last line); that the real _parse rejects the same directive as the model is the fault-injection tie',
+    'KNOWN FINDING valid/compile-error/break-in-moved-block: a break/continue in a block body that extends moves out of its loop is accepted by _parse and fails with SyntaxError at load (break_inside_loop_refuted); break_inside_loop_partial has its side condition on the generated lines only, the source-level statement (break_inside_loop_goal: no block body with a loose break/continue => the module compiles) is open and decided per case by CPython',
     'interp_matches_gen_structure_partial covers text, expressions, raw, if/elif/else, for, set, break, continue; apply, block/extends/include, while, try, import are tie-only',
 ]
 CLAUSES = {
@@ -62,7 +65,12 @@ CLAUSES = {
         "outside the fragment (apply, block/extends/include, while, try, import) tie only "
         "(interp_matches_gen_structure_goal)",
     "templates that are not well-formed raise a ParseError naming the correct line":
-        "parse_error_line, unterminated_error_line, lex_line_invariant + fault-injection oracle (file and line span of the injected fault)",
+        "parse_error_located (every error: raised by the first directive stepTok rejects after all earlier tokens were accepted, that "
+        "directive sits at the stated source offset, opens on lineAt(offset) and the reported line is lineAt(offset just behind its "
+        "closing marker); or the input ran out and the line is that of the offset where the rest / the unclosed directive starts), "
+        "parse_error_line (weaker: some offset), unterminated_error_line, lex_line_invariant + fault-injection oracle (file and line "
+        "span of the injected fault); known finding: break/continue in a block moved out of its loop by extends gives a SyntaxError, not a "
+        "ParseError (break_inside_loop_full / _refuted / _partial, loop_block_cases stream)",
     "literal text is reproduced byte-for-byte apart from the selected whitespace filtering":
         "lex_src, text_verbatim, text_only_output, escape_sequences, triple_brace_innermost, filter_all_identity, filter_single_idempotent, filter_whitespace_idempotent (all three modes; also checked on every filter case)",
     "extends, block and include through a loader":
@@ -498,7 +506,11 @@ FAULTS = {
     "blockMissing": (["{% block %}x\n\ny\n{% end %}", "{% block %}{% end %}"], "any"),
     "extraEnd": (["{% end %}", "{% end if %}", "{%end\n%}"], "top"),
     "interOutside": (["{% else %}", "{% elif sx %}", "{% except %}", "{% finally %}"], "top"),
-    "breakOutside": (["{% break %}", "{% continue %}", "{% if sx %}{% break %}{% end %}", "{% apply up %}{% continue %}{% end %}"], "top"),
+    "breakOutside": (["{% break %}", "{% continue %}", "{% if sx %}{% break %}{% end %}", "{% apply up %}{% continue %}{% end %}",
+                      # the else clause of a loop is not in the loop (fix/hC19)
+                      "{% for q in l3 %}a\n{% else %}\n{% break %}{% end %}", "{% while f0 %}{% else %}b{% continue %}\n{% end %}",
+                      "{% for q in l3 %}{% else %}{% if sx %}\n{% break %}{% end %}{% end %}",
+                      "{% for q in l3 %}{% for r in li %}{% end %}{% else %}{% try %}{% finally %}{% continue %}{% end %}{% end %}"], "top"),
     "interNotAttachable": (["{% for q in l3 %}{% elif sx %}{% end %}", "{% if sx %}{% except %}{% end %}", "{% apply up %}{% else %}{% end %}",
                             "{% block b9 %}\n{% else %}{% end %}", "{% while f0 %}{% finally %}{% end %}", "{% try %}{% elif sx %}{% end %}"], "any"),
     "missingEndExpr": (["{{ sx", "{{", "{{ sx }", "{{ sx %}"], "eof"),
@@ -508,6 +520,11 @@ FAULTS = {
 }
 # offset (in lines) inside the fault text at which the offending directive ends, for multi-directive faults
 _FAULT_SPAN = {
+    "{% for q in l3 %}a\n{% else %}\n{% break %}{% end %}": ("{% for q in l3 %}a\n{% else %}\n", "{% break %}"),
+    "{% while f0 %}{% else %}b{% continue %}\n{% end %}": ("{% while f0 %}{% else %}b", "{% continue %}"),
+    "{% for q in l3 %}{% else %}{% if sx %}\n{% break %}{% end %}{% end %}": ("{% for q in l3 %}{% else %}{% if sx %}\n", "{% break %}"),
+    "{% for q in l3 %}{% for r in li %}{% end %}{% else %}{% try %}{% finally %}{% continue %}{% end %}{% end %}":
+        ("{% for q in l3 %}{% for r in li %}{% end %}{% else %}{% try %}{% finally %}", "{% continue %}"),
     "{% if sx %}{% break %}{% end %}": ("{% if sx %}", "{% break %}"),
     "{% apply up %}{% continue %}{% end %}": ("{% apply up %}", "{% continue %}"),
     "{% for q in l3 %}{% elif sx %}{% end %}": ("{% for q in l3 %}", "{% elif sx %}"),
@@ -640,6 +657,44 @@ SOUP = ["{", "{", "}", "%", "#", "!", " ", "\n", "a", "{{", "}}", "{%", "%}", "{
         "apply f", "set a=1", "raw", "try", "break", "whitespace all", "autoescape None", "include 'i0'", "extends 'i0'", "\t", "é"]
 
 
+def loop_block_cases():
+    """systematic: `break` / `continue` next to the constructs that move a body somewhere else.  `{% block %}` inherits
+    `in_loop` from its surroundings (template.py _parse), but the body of a block is generated at the place of the block
+    of the ROOT template: a child's block that sits inside a loop of the child can land outside every loop (or inside an
+    `{% apply %}` function) of the parent.  Also `break` / `continue` inside `finally` of a `try` inside a loop."""
+    loops = [("{% for y in l3 %}", "{% end %}"), ("{% set w = t1 %}{% while w %}{% set w = f0 %}", "{% end %}")]
+    for kw in ("break", "continue"):
+        for stmt in ("{% " + kw + " %}", "{% if t1 %}{% " + kw + " %}{% end %}", "{% if f0 %}{% " + kw + " %}{% end %}"):
+            for lo, le in loops:
+                def case(files, entry, known=False):
+                    c = {"kind": "tpl", "files": files, "entry": entry, "ws": None, "ae": "xhtml_escape", "exec": True, "valid": True,
+                         "feat": ["loopblock", "block", "break"]}
+                    if known:
+                        c["break_in_block"] = True
+                    return c
+                child = "{% extends \"p.html\" %}{% for q in li %}{% block b1 %}c{{ q }}" + stmt + "d{% end %}{% end %}"
+                # A: one file, the block inside the loop
+                yield case([["e.html", "a" + lo + "[{% block b1 %}{{ sx }}" + stmt + "z{% end %}]" + le + "c"]], "e.html")
+                # B: the parent's block is inside a loop of the parent
+                yield case([["p.html", "a" + lo + "[{% block b1 %}p{% end %}]" + le + "c"], ["e.html", child]], "e.html")
+                # C: the parent's block is outside every loop          (known finding: SyntaxError instead of ParseError)
+                yield case([["p.html", "a[{% block b1 %}p{% end %}]c"], ["e.html", child]], "e.html", known=True)
+                # D: the parent's block is inside an apply inside a loop (known finding)
+                yield case([["p.html", "a" + lo + "{% apply wrap %}{% block b1 %}p{% end %}{% end %}" + le + "c"], ["e.html", child]],
+                           "e.html", known=True)
+                # E: the parent's block has the statement, the child overrides it with text
+                yield case([["p.html", "a" + lo + "[{% block b1 %}p" + stmt + "r{% end %}]" + le + "c"],
+                            ["e.html", "{% extends \"p.html\" %}{% block b1 %}child{% end %}"]], "e.html")
+                # G: in the else clause of an inner loop the statement belongs to the outer loop
+                yield case([["e.html", "a" + lo + "[{% for q in li %}x{% else %}e" + stmt + "f{% end %}]" + le + "c"]], "e.html")
+                yield case([["e.html", "a" + lo + "[{% set u = f0 %}{% while u %}x{% else %}e" + stmt + "f{% end %}]" + le + "c"]], "e.html")
+                # F: inside `finally` (with and without an exception on its way)
+                for boom in ("", "{{ boom }}"):
+                    yield case([["e.html", "a" + lo + "{% try %}t" + boom + "{% finally %}f" + stmt + "g{% end %}z" + le + "c"]], "e.html")
+                    yield case([["e.html", "a" + lo + "{% try %}t" + boom + "{% except NameError %}x{% finally %}f" + stmt + "g{% end %}z" + le + "c"]],
+                               "e.html")
+
+
 def gen_cases(rng, tier):
     n = {"quick": 2600, "thorough": 52000, "search": 3000}[tier]
     # dense boundary cases of the reader first (always)
@@ -652,6 +707,7 @@ def gen_cases(rng, tier):
     # resolved name": two directories with the same base names, relative include / extends / include inside an
     # overriding block, every order of earlier loads on the same loader instance
     yield from history_cases(tier)
+    yield from loop_block_cases()
     # DictLoader.resolve_path: all short names over {a . /} (and `..` `<`) against a set of parents
     alpha = ["a", ".", "/"]
     names = [""]
@@ -890,7 +946,14 @@ def model_requests(case, impl):
         if case["op"] == "resolve":
             return [line(ID, "resolve", case["name"], case["parent"])]
         return [line(ID, "repr", bytes.fromhex(case["bytes"]))]
+    if _loopok_case(case):
+        return [compile_line(case), line(ID, "loopok", case["ws"], case["ae"], case["entry"], case["files"])]
     return [compile_line(case)]
+
+
+def _loopok_case(case):
+    """well-formed templates (one load): CPython's verdict on the generated module is compared with Spec.loopOK"""
+    return case["kind"] == "tpl" and case.get("valid") is True and not case.get("loads")
 
 
 def norm_reply(reply):
@@ -926,6 +989,8 @@ def model_result(case, replies):
     r = norm_reply(replies[0])
     if case["kind"] == "prim":
         return r[0]
+    if _loopok_case(case):
+        return [_norm_outcome(r), norm_reply(replies[1])[0]]
     return _norm_outcome(r)
 
 
@@ -934,6 +999,8 @@ def impl_view(case, impl):
         return impl["out"]
     if case.get("loads"):
         return [p["compile"] for p in impl.get("pre", [])] + [impl["compile"]]
+    if _loopok_case(case):
+        return [impl["compile"], "N" if impl["compile"][0] != "code" else ("F" if "syntax_error" in impl else "T")]
     return impl["compile"]
 
 
@@ -1047,6 +1114,11 @@ def stats(case, impl):
     return out
 
 
+def _break_and_block(case):
+    """some file has a `{% block %}` and a `{% break %}` / `{% continue %}`"""
+    return any(re.search(r"\{%\s*block\b", t) and re.search(r"\{%\s*(break|continue)\s*%\}", t) for _, t in case.get("files", []))
+
+
 def signature(case, impl, why):
     if case.get("fault"):
         k = case["fault"]["kind"]
@@ -1058,6 +1130,8 @@ def signature(case, impl, why):
     if "rejected" in why:
         return "valid/rejected"
     if "failed to compile" in why:
+        if (case.get("break_in_block") or _break_and_block(case)) and why.endswith("SyntaxError"):
+            return "valid/compile-error/break-in-moved-block"
         return "valid/compile-error"
     if "direct interpretation" in why:
         return "valid/output-differs"
